@@ -80,6 +80,7 @@ class SsbScriptSsbCompiler:
         self.routine_infos = None
         self.routine_ops = None
         self.named_coroutines = None
+        self.source_map = None
 
         input_stream = InputStream(ssb_script_src)
         lexer = SsbScriptLexer(input_stream)
